@@ -329,6 +329,23 @@ class MustWrite:
         return (call.method in LEAF_WRITERS and call.trait is not None
                 and call.trait.rsplit("::", 1)[-1] == "ImageViewMut")
 
+    def _must_call_param(self, t, li):
+        """does the crate-local function t invoke its parameter li (an FnOnce / FnMut / Fn value)
+        on every path from entry to return?"""
+        al = Aliases(t, [li])
+        callers = set()
+        for c in t.calls():
+            if short(c.name) in ("call_once", "call_mut", "call") and c.args and \
+                    c.args[0][0] in ("c", "m") and c.args[0][1][0] in al.set:
+                callers.add(c.bb)
+        if not callers:
+            return False
+        blocked = set()
+        for b in callers:
+            for s_ in t.succ[b]:
+                blocked.add((b, s_))
+        return find_path_consistent(t, 0, t.returns(), blocked=set(), blocked_edges=blocked) is None
+
     def closure_writes(self, cl):
         """a closure handed to for_each(parts): does every path through it write something
         mutable it receives (any argument)?"""
@@ -419,6 +436,16 @@ class MustWrite:
                     ty = t.local_ty(li)
                     if not (ty.startswith("&mut") or
                             (not ty.startswith("&") and "ImageViewMut" in ty)):
+                        # a closure that captured the destination, handed to a crate-local
+                        # function that calls it on every path (`with_scratch(which, |this, buf| ..)`):
+                        # the call writes if the closure does
+                        a = c.args[i]
+                        aty = fn.local_ty(a[1][0]) if a[0] in ("c", "m") else ""
+                        if "{closure:" in (aty or "") and self._must_call_param(t, li):
+                            cid = aty[aty.index("{closure:") + 9:-1]
+                            cl = prog.fns.get(cid)
+                            if cl is not None:
+                                verdicts.append((t, self.closure_writes(cl)))
                         continue
                     verdicts.append((t, self.mw(t, li)))
             if not verdicts:
